@@ -1022,7 +1022,10 @@ def hub_stream(ctx, RN, rng, quick):
         ctx.case(("hub", n, res.tobytes().hex()[:64], dt), True, {"hub": "star + 4 links", "n": n})
         rep = {"n": n, "graph": "star with hub 0 plus links " + str(
             [(i, j) for i in range(1, n) for j in range(1, i) if A[i][j]]), "dtype": dt,
-            "resistances_on_links": "see adjacency; values in {0.5,1,2,4}"}
+            "links_with_resistance": [[i, j, float(res[i, j])] for i in range(n) for j in range(i)
+                                      if A[i][j]],
+            "construct": "ResNetwork(res)" if dt == "float64"
+            else "ResNetwork(res, adjacency=int8 matrix)"}
         tol = 3e-5 if dt == "float32" else 1e-8
         try:
             net = quiet(RN, arr, adjacency=np.array(A, dtype=np.int8)) \
